@@ -83,6 +83,7 @@ type relOp struct {
 
 type bridgeHist struct {
 	lh        *lockHist
+	mutNext   int // next deposit mutator (C03): mutators are used in turn
 	bc        *world.BtcChain
 	voted     map[uint64][]byte
 	votedTip  uint64
@@ -116,6 +117,7 @@ func newBridgeHist(lh *lockHist) *bridgeHist {
 	b.keys = []*relayertypes.PublicKey{lh.ch.W.BtcKey}
 	b.secrets = [][]byte{lh.ch.W.BtcPriv}
 	b.curKey = lh.ch.W.BtcKey
+	b.mutNext = int(lh.c.Seed%7)*5 + lh.c.Case*3
 	return b
 }
 
